@@ -1,5 +1,5 @@
 (* C02 — Search filters select exactly the matching events.
-   Statements only; proofs are in SigP.DteProofs / SigP.FilterProofs.
+   Statements only; proofs are in SigP.DteProofs / SigP.FilterProofs / SigP.FilterPlanProofs / SigP.ChunkWalkProofs / SigP.FilterChunkProofs.
 
    Property text: for every search expression (field comparisons with = != < <= > >= against
    string, integer and decimal literals, wildcards, free-text terms and phrases, AND/OR/NOT,
@@ -354,3 +354,104 @@ Theorem C02_code_AreTimesFullyEnclosed_is_model : forall tr lo hi,
   gen_AreTimesFullyEnclosed (t_end tr) (t_start tr) lo hi = Filter.times_fully_enclosed tr lo hi.
 Proof. exact gen_AreTimesFullyEnclosed_is_model. Qed.
 Print Assumptions C02_code_AreTimesFullyEnclosed_is_model.
+
+(* ---- segments with more blocks than the batching constants of the search path (ChunkWalk.v, FilterChunk.v) ----
+   RawSearchSegmentFileWrapper walks the sorted candidate blocks of a request with two nested index loops in chunks of
+   BLOCK_BATCH_SIZE and runs the raw search once per chunk; the searcher hands the blocks to it in groups.  The model
+   keeps the loop indices (go_inner / go_outer); [chunks_of] is the specification "cut n off the front". *)
+From SigM Require Import ChunkWalk FilterChunk FilterCheck.
+From SigP Require Import ChunkWalkProofs FilterChunkProofs.
+From Coq Require Import Permutation.
+
+(* the two loops as coded = cutting n elements off the front, for every chunk size n >= 1 and every list *)
+Theorem C02_chunk_walk_is_spec : forall (A : Type) n (l : list A), (1 <= n)%nat ->
+  go_chunks n l = chunks_of (length l) n l.
+Proof. intros A. exact (@go_chunks_spec A). Qed.
+Print Assumptions C02_chunk_walk_is_spec.
+
+(* every element is in exactly one chunk, in order: the concatenation of the chunks is the list *)
+Theorem C02_chunk_walk_concat : forall (A : Type) n (l : list A), (1 <= n)%nat -> concat (go_chunks n l) = l.
+Proof. intros A. exact (@go_chunks_concat A). Qed.
+Print Assumptions C02_chunk_walk_concat.
+
+(* no chunk is empty or longer than n; every chunk but the last is full *)
+Theorem C02_chunk_walk_sizes : forall (A : Type) n (l : list A), (1 <= n)%nat ->
+  Forall (fun c => (1 <= length c <= n)%nat) (go_chunks n l).
+Proof. intros A. exact (@go_chunks_sizes A). Qed.
+Print Assumptions C02_chunk_walk_sizes.
+Theorem C02_chunk_walk_full : forall (A : Type) n (l : list A) k, (1 <= n)%nat ->
+  (S k < length (go_chunks n l))%nat -> length (nth k (go_chunks n l) []) = n.
+Proof. intros A. exact (@go_chunks_full A). Qed.
+Print Assumptions C02_chunk_walk_full.
+
+(* MAIN: whatever batching hands the blocks of the merged plan to the raw search (every block number in exactly one
+   batch: searcher groups, chunks, block workers), the appended results are a permutation of the search of all blocks of
+   the plan: no event is lost and none is returned twice *)
+Theorem C02_batched_search_is_planned_search : forall batching cmi e tr blks,
+  lawful_batching batching ->
+  Permutation (batched_select batching cmi e tr blks) (plan_select cmi e tr blks).
+Proof. exact batched_select_perm. Qed.
+Print Assumptions C02_batched_search_is_planned_search.
+
+(* the chunk walk of RawSearchSegmentFileWrapper (descending or ascending block numbers) is such a batching ... *)
+Theorem C02_chunk_batching_lawful : forall n asc, (1 <= n)%nat -> lawful_batching (chunk_batching n asc).
+Proof. exact chunk_batching_lawful. Qed.
+Print Assumptions C02_chunk_batching_lawful.
+
+(* ... so the chunked search of a segment with ANY number of blocks selects exactly the records the record-level search
+   selects from all records of the segment (sound micro-index check, distinct block numbers), for every chunk size *)
+Theorem C02_chunked_search_exact : forall n asc cmi e tr blks, (1 <= n)%nat ->
+  NoDup (map fst blks) ->
+  (forall a, In a (leaves (push_not false e)) -> forall nb, In nb blks -> cmi_sound_on cmi a (snd nb)) ->
+  Permutation (chunk_select n asc cmi e tr blks) (impl_select e tr (all_events blks)).
+Proof. exact chunk_select_exact. Qed.
+Print Assumptions C02_chunked_search_exact.
+
+(* the two levels composed: the searcher cuts the block list into groups of any sizes, each group is searched in chunks *)
+Theorem C02_grouped_chunked_search_exact : forall sizes n cmi e tr blks, (1 <= n)%nat ->
+  NoDup (map fst blks) ->
+  (forall a, In a (leaves (push_not false e)) -> forall nb, In nb blks -> cmi_sound_on cmi a (snd nb)) ->
+  Permutation (batched_select (grouped_chunk_batching sizes n) cmi e tr blks) (impl_select e tr (all_events blks)).
+Proof. exact grouped_chunk_select_exact. Qed.
+Print Assumptions C02_grouped_chunked_search_exact.
+
+(* A OR B / A AND B of the chunked search = union / intersection of the chunked results of A and of B *)
+Theorem C02_chunked_or_is_union : forall n asc cmi a b tr blks ev, (1 <= n)%nat ->
+  NoDup (map fst blks) ->
+  (forall x, In x (leaves (push_not false a) ++ leaves (push_not false b)) -> forall nb, In nb blks -> cmi_sound_on cmi x (snd nb)) ->
+  (In ev (chunk_select n asc cmi (EOr a b) tr blks) <->
+   In ev (chunk_select n asc cmi a tr blks) \/ In ev (chunk_select n asc cmi b tr blks)).
+Proof. exact chunk_or_is_union. Qed.
+Print Assumptions C02_chunked_or_is_union.
+Theorem C02_chunked_and_is_intersection : forall n asc cmi a b tr blks ev, (1 <= n)%nat ->
+  NoDup (map fst blks) ->
+  (forall x, In x (leaves (push_not false a) ++ leaves (push_not false b)) -> forall nb, In nb blks -> cmi_sound_on cmi x (snd nb)) ->
+  (In ev (chunk_select n asc cmi (EAnd a b) tr blks) <->
+   In ev (chunk_select n asc cmi a tr blks) /\ In ev (chunk_select n asc cmi b tr blks)).
+Proof. exact chunk_and_is_intersection. Qed.
+Print Assumptions C02_chunked_and_is_intersection.
+
+(* the off-by-one variant (`i++` also in the outer loop header) is NOT the list: identical while everything fits into one
+   chunk (why segments with few blocks cannot tell), but with more than n elements the one at index n is in no chunk *)
+Theorem C02_chunk_walk_skip_same_when_small : forall (A : Type) n (l : list A), (1 <= n)%nat -> (length l <= n)%nat ->
+  go_chunks_skip n l = go_chunks n l.
+Proof. intros A. exact (@go_chunks_skip_small A). Qed.
+Print Assumptions C02_chunk_walk_skip_same_when_small.
+Theorem C02_chunk_walk_skip_loses : forall (A : Type) n (l : list A) d, (1 <= n)%nat -> NoDup l -> (n < length l)%nat ->
+  ~ In (nth n l d) (concat (go_chunks_skip n l)).
+Proof. intros A. exact (@go_chunks_skip_loses A). Qed.
+Print Assumptions C02_chunk_walk_skip_loses.
+Theorem C02_chunk_skip_block_never_searched : forall n (bs : list N) d, (1 <= n)%nat -> NoDup bs -> (n < length bs)%nat ->
+  ~ In (nth n (sort_desc bs) d) (concat (go_chunks_skip n (sort_desc bs))).
+Proof. exact chunk_skip_block_never_searched. Qed.
+Print Assumptions C02_chunk_skip_block_never_searched.
+(* three one-record blocks, chunks of 2, match-all: the code returns the three records, the variant loses block 0, and the
+   executable check used by the case files notices *)
+Theorem C02_chunk_skip_refuted :
+  let tr := mkTr 0 100 in
+  ids (chunk_select 2 false cmi_model ex3_all tr ex3_blks) = [1%N; 2%N; 0%N] /\
+  ids (chunk_select_skip 2 cmi_model ex3_all tr ex3_blks) = [1%N; 2%N] /\
+  ids (impl_select ex3_all tr (all_events ex3_blks)) = [0%N; 1%N; 2%N] /\
+  check_chunk_select2 2 ex3_blks [(ex3_all, tr, [0%N; 1%N; 2%N]); (ex3_all, tr, [1%N; 2%N])] 0 = [1%nat].
+Proof. exact chunk_skip_refuted. Qed.
+Print Assumptions C02_chunk_skip_refuted.
